@@ -22,15 +22,37 @@ class Counted:
     def __init__(self, rng, neq, i):
         self.a, self.b, self.c, self.w = (float(np.round(rng.uniform(-1, 1), 3)) for _ in range(4))
         self.k = int(rng.integers(neq)); self.i = i; self.calls = 0
+        self.mode = str(rng.choice(["fresh", "fresh", "stored", "state"])); self.table = None
 
     def __call__(self, x, q):
         self.calls += 1
+        if self.mode == "stored":          # a profile tabulated once and returned as is at every call (persistent array)
+            if self.table is None or self.table.shape != np.shape(x):
+                self.table = self.a * np.sin(self.w * x) + self.c * x
+                self.table0 = self.table.copy()
+            return self.table
+        if self.mode == "state":           # a component of the state handed back directly (aliases the caller's array)
+            return q[self.k]
         return self.value(x, q)
+
+    def expected(self, x, q):
+        if self.mode == "stored":
+            return self.a * np.sin(self.w * x) + self.c * x
+        if self.mode == "state":
+            return np.array(q[self.k], copy=True)
+        return self.value(x, q)
+
+    def untouched(self):
+        return self.mode != "stored" or self.table is None or np.array_equal(self.table, self.table0)
 
     def value(self, x, q):
         return self.a * np.sin(self.w * x) + self.b * q[self.k] + self.c * q[0] * x
 
     def desc(self):
+        if self.mode == "stored":
+            return "stored array %g*sin(%g x)+%g*x (same object returned at every call)" % (self.a, self.w, self.c)
+        if self.mode == "state":
+            return "returns Q[%d] itself" % self.k
         return "%g*sin(%g x)+%g*Q[%d]+%g*Q[0]*x" % (self.a, self.w, self.b, self.k, self.c)
 
 
@@ -70,19 +92,23 @@ def user_sources(ctx, rng, idx):
     ctx.describe(sources=[c.desc() if c else None for c in src], **s0.desc())
     R0 = [r.copy() for r in s0.disc.rhs(s0.field)]
     f1 = gen.fdata_prim(model1, s0.mesh, s0.prim)
-    R1 = [r.copy() for r in disc1.rhs(f1)]
-    if not all(np.all(np.isfinite(r)) for r in R0 + R1):
-        raise core.Skip("nonfinite")
+    fcopy = [d.copy() for d in f1.data]
     x = s0.mesh.centers()
-    for i in range(neq):
-        if src[i] is None:
-            ctx.true(mname, np.array_equal(R1[i], R0[i]), "%s/none-entry-changes-equation-%d" % (mname, i), {"max diff": np.max(np.abs(R1[i] - R0[i]))}, cls=mname)
-        else:
-            exp = src[i].value(x, f1.data)
-            sc = max(np.max(np.abs(R0[i])), np.max(np.abs(exp))) + 1e-300
-            ctx.close(mname, np.max(np.abs((R1[i] - R0[i]) - exp)) / sc, TOL, "%s/source-not-added-once-to-its-own-equation/eq%d" % (mname, i),
-                      {"subset": sorted(sub), "ratio (got/expected)": float(np.median((R1[i] - R0[i]) / np.where(exp != 0, exp, np.nan)))}, cls=mname)
-            ctx.true("called-once", src[i].calls == 1, "%s/source-callable-not-called-exactly-once" % mname, {"calls": src[i].calls, "eq": i}, cls="called-once")
+    for call in range(3):               # the operator is evaluated several times on the same objects: nothing may accumulate
+        R1 = [r.copy() for r in disc1.rhs(f1)]
+        if not all(np.all(np.isfinite(r)) for r in R0 + R1):
+            raise core.Skip("nonfinite")
+        for i in range(neq):
+            if src[i] is None:
+                ctx.true(mname, np.array_equal(R1[i], R0[i]), "%s/none-entry-changes-equation-%d" % (mname, i), {"max diff": np.max(np.abs(R1[i] - R0[i])), "call": call}, cls=mname)
+            else:
+                exp = src[i].expected(x, fcopy)
+                sc = max(np.max(np.abs(R0[i])), np.max(np.abs(exp))) + 1e-300
+                ctx.close(mname, np.max(np.abs((R1[i] - R0[i]) - exp)) / sc, TOL, "%s/source-not-added-once-to-its-own-equation/eq%d%s" % (mname, i, "" if call == 0 else "/repeated-call"),
+                          {"subset": sorted(sub), "call": call, "source kind": src[i].mode}, cls=mname)
+                ctx.true("called-once", src[i].calls == call + 1, "%s/source-callable-not-called-exactly-once" % mname, {"calls": src[i].calls, "eq": i, "rhs calls": call + 1}, cls="called-once")
+                ctx.true("source-array-untouched", src[i].untouched(), "%s/array-returned-by-user-source-modified" % mname, {"eq": i}, cls=mname)
+        ctx.true("field-untouched", all(np.array_equal(a, b) for a, b in zip(f1.data, fcopy)), "%s/field-modified-by-rhs" % mname, None, cls=mname)
     ctx.nontrivial(mname, sorted(sub), s0.desc())
 
 
@@ -129,18 +155,23 @@ def nozzle_user(ctx, rng, idx):
     d1 = md.fvm(m1, s0.mesh, s0.num, numflux=s0.flux, bcL=s0.bcL, bcR=s0.bcR)
     f0 = gen.fdata_prim(m0, s0.mesh, s0.prim); f1 = gen.fdata_prim(m1, s0.mesh, s0.prim)
     R0 = [r.copy() for r in d0.rhs(f0)]
-    R1 = [r.copy() for r in d1.rhs(f1)]
-    if not all(np.all(np.isfinite(r)) for r in R0 + R1):
-        raise core.Skip("nonfinite")
+    fcopy = [d.copy() for d in f1.data]
     x = s0.mesh.centers()
-    for i in range(3):
-        if src[i] is None:
-            ctx.true("nozzle-user-sources", np.array_equal(R1[i], R0[i]), "nozzle/none-entry-changes-equation-%d" % i, None, cls="nozzle-user-sources")
-        else:
-            exp = src[i].value(x, f1.data)
-            sc = max(np.max(np.abs(R0[i])), np.max(np.abs(exp))) + 1e-300
-            ctx.close("nozzle-user-sources", np.max(np.abs((R1[i] - R0[i]) - exp)) / sc, 1e-11, "nozzle/user-source-not-added-to-geometric-source/eq%d" % i, {"subset": sorted(sub)}, cls="nozzle-user-sources")
-            ctx.true("called-once", src[i].calls == 1, "nozzle/source-callable-not-called-exactly-once", {"calls": src[i].calls, "eq": i}, cls="called-once")
+    for call in range(3):
+        R1 = [r.copy() for r in d1.rhs(f1)]
+        if not all(np.all(np.isfinite(r)) for r in R0 + R1):
+            raise core.Skip("nonfinite")
+        for i in range(3):
+            if src[i] is None:
+                ctx.true("nozzle-user-sources", np.array_equal(R1[i], R0[i]), "nozzle/none-entry-changes-equation-%d" % i, {"call": call, "max diff": np.max(np.abs(R1[i] - R0[i]))}, cls="nozzle-user-sources")
+            else:
+                exp = src[i].expected(x, fcopy)
+                sc = max(np.max(np.abs(R0[i])), np.max(np.abs(exp))) + 1e-300
+                ctx.close("nozzle-user-sources", np.max(np.abs((R1[i] - R0[i]) - exp)) / sc, 1e-11, "nozzle/user-source-not-added-to-geometric-source/eq%d%s" % (i, "" if call == 0 else "/repeated-call"),
+                          {"subset": sorted(sub), "call": call, "source kind": src[i].mode}, cls="nozzle-user-sources")
+                ctx.true("called-once", src[i].calls == call + 1, "nozzle/source-callable-not-called-exactly-once", {"calls": src[i].calls, "eq": i}, cls="called-once")
+                ctx.true("source-array-untouched", src[i].untouched(), "nozzle/array-returned-by-user-source-modified", {"eq": i}, cls="nozzle-user-sources")
+        ctx.true("field-untouched", all(np.array_equal(a, b) for a, b in zip(f1.data, fcopy)), "nozzle/field-modified-by-rhs", None, cls="nozzle-user-sources")
     # a second nozzle built afterwards without sources must not have inherited them (no shared state between instances)
     m2 = euler.nozzle(sec, gamma=gam)
     d2 = md.fvm(m2, s0.mesh, s0.num, numflux=s0.flux, bcL=s0.bcL, bcR=s0.bcR)
